@@ -19,10 +19,10 @@ ASSUMPTIONS = ['finite standard models with type-variable domains of size <= 3, 
                '_VAR interpreted as the constantly true predicate',
                'evaluator calibrated at start-up: every theorem of logic_base must be valid in it']
 REQUIRED = {'quick': {'nested_scripts': 100, 'nested_accepted': 20, 'scripts_accepted': 300, 'sequents_judged': 1500, 'rules_all15_seen': 1,
-                      'directed_stv_substitutions': 150, 'directed_capture_attempts': 60, 'directed_sharing_binders': 100,
+                      'directed_svar_hyp_sequents': 60, 'directed_stv_substitutions': 150, 'directed_capture_attempts': 60, 'directed_sharing_binders': 100,
                       'open_term_arguments': 40},
             'thorough': {'nested_scripts': 1500, 'nested_accepted': 300, 'scripts_accepted': 5000, 'sequents_judged': 20000, 'rules_all15_seen': 1,
-                         'directed_stv_substitutions': 1500, 'directed_capture_attempts': 600, 'directed_sharing_binders': 1000,
+                         'directed_svar_hyp_sequents': 600, 'directed_stv_substitutions': 1500, 'directed_capture_attempts': 600, 'directed_sharing_binders': 1000,
                          'open_term_arguments': 400}}
 
 RULES = ['assume', 'implies_intr', 'implies_elim', 'reflexive', 'symmetric', 'transitive',
@@ -199,6 +199,28 @@ class ScriptGen:
             self.add('abstraction', S.to_repo_term(x), [len(self.shs) - 1])
         return ok
 
+    def directed_svar_hyp(self):
+        """a hypothesis whose schematic type variable occurs ONLY in the types of schematic term variables (?P ?x),
+        then subst_type: hypotheses and conclusion must be instantiated alike"""
+        from kernel.type import TyInst
+        rng = self.rng
+        a = ('stv', rng.choice(['a', 'b']))
+        P, x = ('svar', rng.choice(['P', 'Q']), S.fun(a, S.BOOL)), ('svar', rng.choice(['x', 'y']), a)
+        H = ('comb', P, x)
+        if rng.random() < 0.4:
+            f = ('svar', 'f', S.fun(a, a))
+            H = ('comb', P, ('comb', f, x))
+        b = len(self.shs)
+        if not self.add('assume', S.to_repo_term(H), []):
+            return False
+        if rng.random() < 0.5:
+            # a conclusion that also mentions the type variable in a constant (so that the rule has work to do there)
+            self.add('reflexive', S.to_repo_term(x), [])
+        ti = TyInst()
+        ti[a[1]] = S.to_repo_type(self.tg.rand_type())
+        self.ctx.count('directed_svar_hyp_sequents')
+        return self.add('subst_type', ti, [b])
+
     def directed_stv(self):
         """a sequent whose hypothesis mentions a schematic type variable but none of the schematic term variables
         of the conclusion (assume !u v. body ; forall_elim twice with schematic variables), and then a substitution
@@ -305,6 +327,8 @@ class ScriptGen:
             return self.directed_capture()
         if r0 < 0.09:
             return self.directed_sharing()
+        if r0 < 0.11:
+            return self.directed_svar_hyp()
         if rule == 'assume':
             t = None
             r = rng.random()
